@@ -3,7 +3,7 @@
    argument lists bound to their placeholders and the scan targets, regenerated from postgres.go and sqlite.go on
    every run (Gen/Sql.v).  The meaning of the Postgres constructs themselves is trusted (DESIGN §8). *)
 From Coq Require Import List String Bool.
-From RV Require Import Gen.Sql Spec.SqlRef Spec.Dialect.
+From RV Require Import Gen.Sql Gen.Flow Spec.SqlRef Spec.FlowRef Spec.Dialect.
 Import ListNotations.
 
 (* every Postgres statement is the SQLite statement under the dialect map ($n -> ?, ::casts dropped, `locks.`
@@ -45,3 +45,30 @@ Print Assumptions C17_same_scan_targets.
 Theorem C17_default_keeps_data : sqlite_reset_default = "false"%string /\ pg_reset_default = "false"%string.
 Proof. split; reflexivity. Qed.
 Print Assumptions C17_default_keeps_data.
+
+(* ---------- the Go control flow of the store workers (Gen/Flow.v: normal forms regenerated from both files) ----------
+   Every method of the Postgres store worker has the same normal form as the method of the SQLite store worker --
+   same guards, same statements in the same order, same row-count and record construction -- except the methods
+   named in flow_exceptions, whose normal forms (in BOTH back ends) equal the reviewed references. *)
+Fixpoint flow_of (f : string) (l : list (string * string)) : option string :=
+  match l with [] => None | (k, v) :: l' => if String.eqb k f then Some v else flow_of f l' end.
+
+Definition opt_str_eqb (a b : option string) : bool :=
+  match a, b with Some x, Some y => String.eqb x y | None, None => true | _, _ => false end.
+
+Theorem C17_same_worker_methods : map fst pg_flow = map fst sqlite_flow.
+Proof. vm_compute. reflexivity. Qed.
+Print Assumptions C17_same_worker_methods.
+
+Theorem C17_same_control_flow :
+  forallb (fun f => existsb (String.eqb f) flow_exceptions || opt_str_eqb (flow_of f pg_flow) (flow_of f sqlite_flow))
+          (map fst sqlite_flow) = true.
+Proof. vm_compute. reflexivity. Qed.
+Print Assumptions C17_same_control_flow.
+
+Theorem C17_flow_exceptions_are_the_reviewed_ones :
+  forallb (fun f => opt_str_eqb (flow_of f pg_flow) (flow_of f ref_pg_flow) &&
+                    opt_str_eqb (flow_of f sqlite_flow) (flow_of f ref_sqlite_flow)) flow_exceptions = true /\
+  map fst ref_pg_flow = flow_exceptions /\ map fst ref_sqlite_flow = flow_exceptions.
+Proof. vm_compute. repeat split; reflexivity. Qed.
+Print Assumptions C17_flow_exceptions_are_the_reviewed_ones.
